@@ -2,7 +2,7 @@
 from ..rules import delivery, flow
 from .common import declare
 
-RULES = ['META-PASS', 'META-FLAT', 'PAIRED-BUFFER', 'META-MEMBERS', 'FRESH-READ']
+RULES = ['META-PASS', 'META-FLAT', 'PAIRED-BUFFER', 'META-MEMBERS', 'FRESH-READ', 'STATE-PER-INSTANCE', 'FIFO-END']
 FLOORS = {'META-PASS': 10, 'META-FLAT': 20, 'PAIRED-BUFFER': 12}
 
 META = {
@@ -25,6 +25,9 @@ def run(ctx, R):
     R.run(flow.check_meta_flat, ctx, R, core)
     R.run(delivery.check_paired_buffer, ctx, R, core)
     R.run(delivery.check_fresh_read, ctx, R, core)
+    # a metadata buffer shared between instances, or taken from the wrong end, delivers metadata with the wrong data
+    R.run(delivery.check_state_per_instance, ctx, R, core)
+    R.run(delivery.check_fifo_end, ctx, R, core)
 
 
 META['level'] += ' FRESH-READ: the metadata (and data) an emission is built from is read after the last store into its container on the path.'
